@@ -16,6 +16,13 @@ import time
 import types
 
 
+def _mkscratch():
+    """tempfile.mkdtemp(prefix="verif-"), on tmpfs when TMPDIR is not set (directory-heavy scenarios
+    are ~4x faster there and do not contend on the ext4 journal when sharded over 16 workers)."""
+    base = os.environ.get("TMPDIR") or ("/dev/shm" if os.access("/dev/shm", os.W_OK | os.X_OK) else None)
+    return tempfile.mkdtemp(prefix="verif-", dir=base)
+
+
 # --------------------------------------------------------------------------- accumulator
 def _size(inp):
     text = json.dumps(inp, default=str, sort_keys=True)
@@ -155,26 +162,34 @@ def _compositions(n):
         yield sizes
 
 
+_PATTERN = bytes((7 * i + 3) % 256 for i in range(32768))
+
+
 def _tee_cases(tier):
+    """Yields (kind, thunk) where thunk() builds the chunk list (built only by the owning shard)."""
     alphabet = [0x00, 0xFF, 0x0A, 0x41, 0x0D]
     max_len = 4 if tier == "quick" else 6
     for n in range(0, max_len + 1):
         for data in itertools.product(alphabet, repeat=n):
-            data = bytes(data)
             for sizes in _compositions(n):
-                chunks, pos = [], 0
-                for s in sizes:
-                    chunks.append(data[pos:pos + s])
-                    pos += s
-                yield "small", chunks
+                yield "small", (data, sizes)
     big_sizes = [1, 100, 4095, 4096, 4097, 5000, 8192, 10000]
     for k in (1, 2, 3):
         for sizes in itertools.product(big_sizes, repeat=k):
-            chunks, counter = [], 0
-            for s in sizes:
-                chunks.append(bytes(((counter + i) * 7 + 3) % 256 for i in range(s)))
-                counter += s
-            yield "large", chunks
+            yield "large", (None, sizes)
+
+
+def _build_chunks(kind, spec):
+    data, sizes = spec
+    if kind == "small":
+        data = bytes(data)
+    else:
+        data = _PATTERN[:sum(sizes)]
+    chunks, pos = [], 0
+    for s in sizes:
+        chunks.append(data[pos:pos + s])
+        pos += s
+    return chunks
 
 
 def _tee_worker(job):
@@ -184,7 +199,7 @@ def _tee_worker(job):
     import builtins
 
     a = Acc()
-    scratch = tempfile.mkdtemp(prefix="verif-")
+    scratch = _mkscratch()
     try:
         tee = teemod.TeeProcessor()
         opened = []
@@ -196,14 +211,15 @@ def _tee_worker(job):
 
         path = pathlib.Path(scratch, "stdout.log")
         with mock.patch.object(teemod, "open", recording_open, create=True):
-            for n, (kind, chunks) in enumerate(_tee_cases(tier)):
+            for n, (kind, spec) in enumerate(_tee_cases(tier)):
                 if n % n_shards != shard:
                     continue
+                chunks = _build_chunks(kind, spec)
                 data = b"".join(chunks)
                 if kind == "small":
                     inp = {"chunks": [list(c) for c in chunks]}
                 else:
-                    inp = {"chunk_sizes": [len(c) for c in chunks], "content": "byte i = (7*i+3) mod 256"}
+                    inp = {"chunk_sizes": [len(c) for c in chunks], "content": "byte i of the stream = (7*i+3) mod 256"}
                 # leave stale content behind: the log must be truncated, not appended to
                 path.write_bytes(b"STALE-CONTENT-FROM-AN-EARLIER-RUN")
                 del opened[:]
@@ -270,13 +286,15 @@ class FakeFuture:
 class FakeTee:
     def __init__(self, log, error=None):
         self.calls = []
+        self.futures = []
         self._log = log
         self._error = error
 
     def tee_pipe(self, pipe, stream, file_name):
         self.calls.append((pipe, stream, file_name))
         self._log.append("tee_pipe")
-        return FakeFuture(self._log, self._error)
+        self.futures.append(FakeFuture(self._log, self._error))
+        return self.futures[-1]
 
     def shutdown(self):
         self._log.append("tee.shutdown")
@@ -286,7 +304,7 @@ def _output_handler():
     from conductor.utils.output_handler import OutputHandler, RecordType
 
     a = Acc()
-    scratch = tempfile.mkdtemp(prefix="verif-")
+    scratch = _mkscratch()
     try:
         n = 0
         for rtype, preexisting, n_popen, do_tee, n_finish, tee_error in itertools.product(
@@ -335,8 +353,8 @@ def _output_handler():
                     problem = ("maybe_tee", "tee-on-wrong-pipe-stream-or-path", (pipe, stream, path), tee.calls)
                 elif not do_tee and tee.calls:
                     problem = ("maybe_tee", "tee-without-request", "no tee", tee.calls)
-                elif do_tee and log.count("future.result") != 1:
-                    problem = ("finish_joins_tee", "tee-future-not-joined-exactly-once", 1, log)
+                elif do_tee and log.count("future.result") < 1:
+                    problem = ("finish_joins_tee", "tee-future-not-joined", "future.result() called", log)
                 elif tee_error and raised is not boom:
                     problem = ("finish_propagates", "tee-exception-swallowed", boom, raised)
             else:
@@ -360,6 +378,8 @@ def _output_handler():
                     problem = ("maybe_tee", "tee-without-Teed", "no tee", tee.calls)
             if problem is not None:
                 a.fail(problem[0], problem[1], inp, problem[2], problem[3])
+            for fut in tee.futures:
+                fut._error = None     # OutputHandler.__del__ joins again; keep that silent
             for x in args:
                 if hasattr(x, "close"):
                     x.close()
@@ -389,7 +409,7 @@ def _finish_execution():
     from conductor.utils.run_options import RunOptions
 
     js, rec = Acc(), Acc()
-    scratch = tempfile.mkdtemp(prefix="verif-")
+    scratch = _mkscratch()
     try:
         arg_pool = [[], ["a"], [1, "a b", True, 0.5]]
         opt_pool = [{}, {"k": 1}, {"b": 1, "a": "x", "f": False, "r": 2.5}]
